@@ -156,6 +156,18 @@ def run(ctx):
     for i in ctx.cases(n):
         rng = ctx.rng(i)
         pb = session.make_problem(rng, N=int(rng.choice([1, 2, 9, 37, 150])))
+        if rng.random() < 0.25:
+            # a single-precision library (prior.sample(dtype=np.float32)): both paths must still see the same doubles
+            for kx in ("P", "e", "omega", "M0"):
+                pb.rows[kx] = np.asarray(pb.rows[kx], dtype=np.float32).astype(float)
+            s32 = np.asarray(pb.s_seen, dtype=np.float32)
+            pb.lib = session.gen.build_samples(pb.rows, units={"s": pb.du}, ln_prior=True, dtype=np.float32)
+            pb.lib["s"] = s32 * session.gen.U(pb.du)
+            pb.s_seen = s32.astype(float)
+            pb.rows["s_kms"] = np.array([session.gen.conv(x, pb.du, "km/s") for x in pb.s_seen])
+            pb.tagP = np.asarray(pb.lib["P"].to_value("d"), dtype=float)
+            if len(np.unique(pb.tagP)) != pb.N:
+                continue            # float32 merged two period tags: skip this case
         N = pb.N
         desc = dict(index=i, N=N, profile=pb.profile, poly_trend=pb.ps["poly_trend"], n_offsets=pb.ps["n_offsets"])
         path = session.lib_file(pb, ctx.tmpdir, "c05lib%d.hdf5" % i)
